@@ -1,6 +1,8 @@
 import KpModel.Db.MergeSelf
 import KpModel.Db.MergeInv
 import KpModel.Db.MergeLemmas
+import KpModel.Db.MergeLww
+import KpModel.Db.MergeLwwG
 /-!
 # C13 — merging is idempotent and merging a database with itself changes nothing
 Property theorems only.  Faithful model: `KpModel/Db/Merge.lean` (tied to `Database::merge` by the
@@ -240,5 +242,77 @@ theorem merge_result_wellFormed (now : Int) (dst src d' : Db) (evs : List Event)
 theorem C13_result_self_merge (now now' : Int) (dst src d' : Db) (evs : List Event) (Wd : WellFormed dst) (Ws : WellFormed src)
     (hroot : src.root.uuid = dst.root.uuid) (h : merge now dst src = .ok (d', evs)) : merge now' d' d' = .ok (d', []) :=
   merge_self now' d' (merge_result_wellFormed now dst src d' evs Wd Ws hroot h)
+
+/-- **C13 (a second merge of the same source keeps every shared entry's content), partial**: after `merge dst src` gave `d₁`, merging
+    `src` into `d₁` again leaves the content of every entry that `dst` and `src` both hold as the first merge left it — by
+    `merge_entry_lww_state` applied twice: the first merge leaves the entry as one of the two versions and with the winner's
+    content; merging the source's version into that gives the same content again.  (The full clause — no events, the whole
+    database unchanged — is `C13_twice`, validated on every enumerated pair, not proved.)  The destination's version carries a
+    modification time (else "now" stands in for it and the second merge may run at another time). -/
+theorem C13_twice_entry_content_partial (now now' : Int) (dst src d1 d2 : Db) (ev1 ev2 : List Event)
+    (hr : dst.root.isGroup = true) (hn : (uuidsL dst.root.children).Nodup)
+    (hrs : src.root.isGroup = true) (hns : (uuidsL src.root.children).Nodup)
+    (h1 : merge now dst src = .ok (d1, ev1)) (h2 : merge now' d1 src = .ok (d2, ev2))
+    (pd ps p1 p2 : List Nat) (de se e1 e2 : Entry)
+    (hd : findEntry dst.root pd = some de) (hs : findEntry src.root ps = some se) (hu : de.d.uuid = se.d.uuid)
+    (htimed : de.d.times.mtime.isSome = true)
+    (hr1 : findEntry d1.root p1 = some e1) (hu1 : e1.d.uuid = se.d.uuid)
+    (hr2 : findEntry d2.root p2 = some e2) (hu2 : e2.d.uuid = se.d.uuid) :
+    e2.d.content = e1.d.content := by
+  have hI1 := merge_inv now dst src d1 ev1 ⟨hr, hn⟩ h1
+  obtain ⟨hst, hc1⟩ := merge_entry_lww_state now dst src d1 ev1 ⟨hr, hn⟩ ⟨hrs, hns⟩ h1 pd ps p1 de se e1 hd hs hu hr1 hu1
+  have hc2 := merge_entry_lww now' d1 src d2 ev2 hI1 ⟨hrs, hns⟩ h2 p1 ps p2 e1 se e2 hr1 hs hu1 hr2 hu2
+  rw [hc2]
+  rcases hst with ⟨a, b⟩ | ⟨a, _⟩
+  · -- still the destination's version: it won the first time, it wins again
+    rw [b]
+    cases hm : de.d.times.mtime with
+    | none => rw [hm] at htimed; cases htimed
+    | some t =>
+      rw [hm] at hc1
+      simp only [Option.getD_some] at hc1 ⊢
+      split
+      · rfl
+      · rename_i hlt
+        rw [if_neg hlt] at hc1
+        rw [hc1]
+  · split
+    · rfl
+    · exact a.symm
+
+/-- **C13 (a second merge of the same source keeps every shared group's own data), partial**: the counterpart of
+    `C13_twice_entry_content_partial` for a group's name / notes / icon / settings. -/
+theorem C13_twice_group_content_partial (now now' : Int) (dst src d1 d2 : Db) (ev1 ev2 : List Event)
+    (hr : dst.root.isGroup = true) (hn : (uuidsL dst.root.children).Nodup) (hfd : dst.root.uuid ∉ uuidsL dst.root.children)
+    (hrs : src.root.isGroup = true) (hns : (uuidsL src.root.children).Nodup) (hfs : src.root.uuid ∉ uuidsL src.root.children)
+    (hf1 : d1.root.uuid ∉ uuidsL d1.root.children)
+    (h1 : merge now dst src = .ok (d1, ev1)) (h2 : merge now' d1 src = .ok (d2, ev2))
+    (pd ps p1 p2 : List Nat) (u dc : Nat) (dt : Times) (dch : List Node) (sc : Nat) (st : Times) (sch : List Node)
+    (c1 : Nat) (t1 : Times) (ch1 : List Node) (c2 : Nat) (t2 : Times) (ch2 : List Node)
+    (hpd : pd ≠ []) (hps : ps ≠ []) (hp1 : p1 ≠ [])
+    (hd : getPath dst.root pd = some (.group u dc dt dch)) (hs : getPath src.root ps = some (.group u sc st sch))
+    (htimed : dt.mtime.isSome = true)
+    (hr1 : getPath d1.root p1 = some (.group u c1 t1 ch1)) (hr2 : getPath d2.root p2 = some (.group u c2 t2 ch2)) :
+    c2 = c1 := by
+  have hI1 := merge_inv now dst src d1 ev1 ⟨hr, hn⟩ h1
+  obtain ⟨hst, hc1⟩ := merge_group_lww_state now dst src d1 ev1 ⟨hr, hn⟩ hfd ⟨hrs, hns⟩ hfs h1 pd ps p1 u dc dt dch sc st sch c1 t1 ch1
+    hpd hps hd hs hr1
+  have hc2 := merge_group_lww now' d1 src d2 ev2 hI1 hf1 ⟨hrs, hns⟩ hfs h2 p1 ps p2 u c1 t1 ch1 sc st sch c2 t2 ch2 hp1 hps hr1 hs hr2
+  rw [hc2]
+  rcases hst with ⟨a, b⟩ | ⟨a, _⟩
+  · rw [b]
+    cases hm : dt.mtime with
+    | none => rw [hm] at htimed; cases htimed
+    | some t =>
+      rw [hm] at hc1
+      simp only [Option.getD_some] at hc1 ⊢
+      split
+      · rfl
+      · rename_i hlt
+        rw [if_neg hlt] at hc1
+        rw [hc1]
+  · split
+    · rfl
+    · exact a.symm
 
 end Kp.Merge
